@@ -520,6 +520,9 @@ Module Example.
   Lemma twin_tree_wf : tree_wf (n_levels twin_net) = true.
   Proof. vm_compute. reflexivity. Qed.
 
+  Lemma twin_names : names (n_levels twin_net) = [EXEC; PRIV; CFG; CFGX].
+  Proof. reflexivity. Qed.
+
   Lemma twin_names_nonempty : ~ In [] (names (n_levels twin_net)).
   Proof. cbn. intros [H|[H|[H|[H|[]]]]]; discriminate. Qed.
 
@@ -532,12 +535,12 @@ Module Example.
     determine_current twin_net (twin_prompt CFGX) = [CFG; CFGX] /\
     determine_current twin_net (twin_prompt PRIV) = [PRIV] /\
     determine_current twin_net (twin_prompt EXEC) = [EXEC].
-  Proof. repeat split; vm_compute; reflexivity. Qed.
+  Proof. split; [|split; [|split]]; vm_compute; reflexivity. Qed.
 
   Example twin_not_prompts_identify : ~ prompts_identify twin_net twin_prompt.
   Proof.
     intros PI. assert (H : In CFG (names (n_levels twin_net))) by (cbn; right; right; left; reflexivity).
-    specialize (PI CFG H). destruct twin_prompt_ambiguous as [E _]. rewrite E in PI. discriminate.
+    specialize (PI CFG H). destruct twin_prompt_ambiguous as [E _]. rewrite E in PI. clear E. discriminate PI.
   Qed.
 
   Lemma parent_of_twin y : parent twin_levels y = Some CFG \/ parent twin_levels y = Some CFGX -> False.
@@ -545,7 +548,7 @@ Module Example.
     intros H.
     assert (Hy : In y (names twin_levels)).
     { destruct H as [H|H]; exact (proj1 (parent_in_names twin_levels twin_tree_wf _ _ H)). }
-    cbn in Hy. destruct Hy as [E|[E|[E|[E|[]]]]]; subst y; vm_compute in H; destruct H as [H|H]; discriminate.
+    cbn in Hy. destruct Hy as [E|[E|[E|[E|[]]]]]; subst y; vm_compute in H; destruct H as [H|H]; discriminate H.
   Qed.
 
   Lemma twin_leaf_cfg : leaf twin_levels CFG.
@@ -557,15 +560,15 @@ Module Example.
   Lemma twin_upto_twins : prompts_identify_upto_twins twin_net twin_prompt.
   Proof.
     destruct twin_prompt_ambiguous as [E1 [E2 [E3 E4]]].
-    intros m Hm. cbn in Hm. destruct Hm as [H|[H|[H|[H|[]]]]]; subst m.
-    - change (bs "exec") with EXEC. rewrite E4. split; [left; reflexivity|].
+    intros m Hm. rewrite twin_names in Hm. destruct Hm as [H|[H|[H|[H|[]]]]]; subst m.
+    - rewrite E4. split; [left; reflexivity|].
       intros m' [E|[]] Hne. exfalso; apply Hne; symmetry; exact E.
-    - change (bs "privilege-exec") with PRIV. rewrite E3. split; [left; reflexivity|].
+    - rewrite E3. split; [left; reflexivity|].
       intros m' [E|[]] Hne. exfalso; apply Hne; symmetry; exact E.
-    - change (bs "configuration") with CFG. rewrite E1. split; [left; reflexivity|].
+    - rewrite E1. split; [left; reflexivity|].
       intros m' [E|[E|[]]] Hne; [exfalso; apply Hne; symmetry; exact E|subst m'].
       split; [exact twin_leaf_cfg|exact twin_leaf_cfgx].
-    - change (bs "configuration-exclusive") with CFGX. rewrite E2. split; [right; left; reflexivity|].
+    - rewrite E2. split; [right; left; reflexivity|].
       intros m' [E|[E|[]]] Hne; [subst m'|exfalso; apply Hne; symmetry; exact E].
       split; [exact twin_leaf_cfgx|exact twin_leaf_cfg].
   Qed.
@@ -658,8 +661,8 @@ Module Example.
     acquire_priv_abs twin_net twin_prompt (mkADev CFG []) net_unknown_priv CFGX = AOk (mkADev CFG []) CFGX.
   Proof.
     split; [|vm_compute; reflexivity].
-    intros [H|H]; [vm_compute in H; discriminate|].
-    destruct twin_prompt_ambiguous as [E _]. cbn [d_mode] in H. rewrite E in H. discriminate.
+    intros [H|H]; [vm_compute in H; discriminate H|].
+    destruct twin_prompt_ambiguous as [E _]. cbn [d_mode] in H. rewrite E in H. clear E. discriminate H.
   Qed.
 
   (* ---- [unknown_not_twin] is needed: a level called "UNKNOWN" that has a twin ---- *)
@@ -679,7 +682,26 @@ Module Example.
     intros H.
     assert (Hy : In y (names unk_levels)).
     { destruct H as [H|H]; exact (proj1 (parent_in_names unk_levels unk_tree_wf _ _ H)). }
-    cbn in Hy. destruct Hy as [E|[E|[E|[]]]]; subst y; vm_compute in H; destruct H as [H|H]; discriminate.
+    cbn in Hy. destruct Hy as [E|[E|[E|[]]]]; subst y; vm_compute in H; destruct H as [H|H]; discriminate H.
+  Qed.
+
+  Lemma unk_names : names (n_levels unk_net) = [bs "root"; net_unknown_priv; bs "t"].
+  Proof. reflexivity. Qed.
+
+  Lemma unk_names_nonempty : ~ In [] (names (n_levels unk_net)).
+  Proof. cbn. intros [H|[H|[H|[]]]]; discriminate H. Qed.
+
+  Lemma unk_cmds_ok : cmds_ok (n_levels unk_net).
+  Proof.
+    split; [|split].
+    - intros k l H Hp. cbn in H. destruct H as [H|[H|[H|[]]]]; inversion H; subst; cbn in *;
+        try contradiction; split; discriminate.
+    - intros k1 l1 k2 l2 H1 H2 E Hp Ee. cbn in H1, H2.
+      destruct H1 as [H1|[H1|[H1|[]]]]; destruct H2 as [H2|[H2|[H2|[]]]]; inversion H1; inversion H2; subst; cbn in *;
+        try reflexivity; try contradiction; try discriminate.
+    - intros k l kc lc H1 H2 E. cbn in H1, H2.
+      destruct H1 as [H1|[H1|[H1|[]]]]; destruct H2 as [H2|[H2|[H2|[]]]]; inversion H1; inversion H2; subst; cbn in *;
+        try discriminate.
   Qed.
 
   (* every hypothesis of the theorem but [unknown_not_twin] holds; starting at session start in
@@ -699,10 +721,10 @@ Module Example.
     assert (L1 : leaf unk_levels net_unknown_priv) by (intros y H; apply (unk_no_parent y); left; exact H).
     assert (L2 : leaf unk_levels (bs "t")) by (intros y H; apply (unk_no_parent y); right; exact H).
     split; [exact unk_tree_wf|].
-    split; [cbn; intros [H|[H|[H|[]]]]; discriminate|].
+    split; [exact unk_names_nonempty|].
     split; [split; intros; apply Permutation_refl|].
     split.
-    { intros m Hm. cbn in Hm. destruct Hm as [H|[H|[H|[]]]]; subst m.
+    { intros m Hm. rewrite unk_names in Hm. destruct Hm as [H|[H|[H|[]]]]; subst m.
       - rewrite D0. split; [left; reflexivity|]. intros m' [E|[]] Hne. exfalso; apply Hne; symmetry; exact E.
       - rewrite D1. split; [left; reflexivity|].
         intros m' [E|[E|[]]] Hne; [exfalso; apply Hne; symmetry; exact E|subst m'].
@@ -710,25 +732,16 @@ Module Example.
       - rewrite D2. split; [right; left; reflexivity|].
         intros m' [E|[E|[]]] Hne; [subst m'|exfalso; apply Hne; symmetry; exact E].
         split; [exact L2|exact L1]. }
-    split.
-    { split; [|split].
-      - intros k l H Hp. cbn in H. destruct H as [H|[H|[H|[]]]]; inversion H; subst; cbn in *;
-          try contradiction; split; discriminate.
-      - intros k1 l1 k2 l2 H1 H2 E Hp Ee. cbn in H1, H2.
-        destruct H1 as [H1|[H1|[H1|[]]]]; destruct H2 as [H2|[H2|[H2|[]]]]; inversion H1; inversion H2; subst; cbn in *;
-          try reflexivity; try contradiction; try discriminate.
-      - intros k l kc lc H1 H2 E. cbn in H1, H2.
-        destruct H1 as [H1|[H1|[H1|[]]]]; destruct H2 as [H2|[H2|[H2|[]]]]; inversion H1; inversion H2; subst; cbn in *;
-          try discriminate. }
+    split; [exact unk_cmds_ok|].
     split; [cbn; left; reflexivity|]. split; [cbn; right; right; left; reflexivity|].
     split; [right; exact D0|].
     split.
     { intros UK. assert (Ht : In (bs "t") (names (n_levels unk_net))) by (cbn; right; right; left; reflexivity).
-      specialize (UK (bs "t") Ht). rewrite D2 in UK. specialize (UK (or_introl eq_refl)). vm_compute in UK. discriminate. }
+      specialize (UK (bs "t") Ht). rewrite D2 in UK. specialize (UK (or_introl eq_refl)). vm_compute in UK. discriminate UK. }
     intros d' c.
     assert (E : exists d0, acquire_priv_abs unk_net unk_prompt (mkADev (bs "root") []) net_unknown_priv (bs "t") = AErrPriv d0)
       by (eexists; vm_compute; reflexivity).
-    destruct E as [d0 E]. rewrite E. discriminate.
+    destruct E as [d0 E]. rewrite E. intros X. discriminate X.
   Qed.
 End Example.
 
